@@ -97,3 +97,40 @@ package gcrypto
 //@   trusted
 //@   ensures wire-form: bytes(result) == regEnc(pubKey)
 //@   modifies nothing
+
+//@ iface CommonMessageSignatureProof.MergeSparse(p, s)
+//@   requires ProofInv(p)
+//@   ensures monotone: forall j mathint :: {pbits(p)[j]} old(pbits(p))[j] ==> pbits(p)[j]
+//@   ensures proof-inv-kept: ProofInv(p)
+//@   ensures hash-mismatch-changes-nothing: s.PubKeyHash != pkhash(p) ==> pbits(p) == old(pbits(p)) &&
+//@       !result.AllValidSignatures && !result.IncreasedSignatures && !result.WasStrictSuperset
+//@   ensures increased-flag: result.IncreasedSignatures == !(pbits(p) == old(pbits(p)))
+//@   modifies pbits(p)
+
+//@ define CInv(p) = forall i mathint :: {bsbits(p.bitset)[i]} bsbits(p.bitset)[i] ==> 0 <= i && i < len(p.keys) && Signed(p.keys[i], bytes(p.msg))
+
+//@ func SimpleCommonMessageSignatureProof.MergeSparse
+//@   property C13 C05 C01 C09
+//@   option implements CommonMessageSignatureProof.MergeSparse
+//@   requires SInv(p) && SCoupling(self, p)
+//@   represents pbits(self) == bsbits(p.bitset)
+//@   ensures sinv-kept: SInv(p)
+//@   modifies p.sigs[*], bsbits(p.bitset)
+//@   loop 1 invariant sinv: SInv(p)
+//@   loop 1 invariant cinv: CInv(p)
+//@   loop 1 invariant coupling: pbits(self) == bsbits(p.bitset)
+//@   loop 1 invariant locals: addedBS != nil && bsBefore != nil && addedBS != p.bitset && bsBefore != p.bitset && addedBS != bsBefore && fresh(addedBS) && fresh(bsBefore)
+//@   loop 1 invariant mono: forall j mathint :: {bsbits(p.bitset)[j]} old(bsbits(p.bitset))[j] ==> bsbits(p.bitset)[j]
+//@   loop 1 invariant before: bsbits(bsBefore) == old(bsbits(p.bitset))
+
+//@ iface CommonMessageSignatureProof.HasSparseKeyID(p, keyID)
+//@   ensures has-means-valid: result0 ==> result1
+//@   ensures valid-iff-two-byte-index-in-range: result1 == (len(keyID) == 2 && be16(bytes(keyID)) < len(pkeys(p)))
+//@   ensures has-iff-bit-set: result1 ==> result0 == pbits(p)[be16(bytes(keyID))]
+//@   modifies nothing
+
+//@ func SimpleCommonMessageSignatureProof.HasSparseKeyID
+//@   property C13 C05
+//@   option implements CommonMessageSignatureProof.HasSparseKeyID
+//@   requires SInv(p) && SCoupling(self, p)
+//@   represents pbits(self) == bsbits(p.bitset)
